@@ -88,6 +88,15 @@ def correspondence(ctx):
         lines.append(f'{h},PVALID,x')
         lines.append(f'{h}-10FFFF,PVALID,x')
         lines.append(f'0000-{h},DISALLOWED,x')
+    for n in list(range(100, 140, 3)) + list(range(225, 262)) + [511, 512, 513, 1023, 1024, 1025, 4096] + [x + d for x in getattr(ctx, 'extra_nums', []) if 16 <= x <= 9000 for d in range(-8, 9)]:
+        for ch in ('\u00e9', '\u20ac', '\U00020000'):
+            for pad in ('', 'Z', 'ZZ', 'ZZZ'):
+                bad = pad + ch * n
+                lines.append(f'{bad},PVALID,LATIN SMALL LETTER E WITH ACUTE')          # malformed code point field
+                if n % 4 == 1:
+                    lines.append(f'0041,{bad},LATIN CAPITAL LETTER A')                # unknown property name
+                    lines.append(f'0041-{bad},PVALID,x')                              # malformed range end
+                    lines.append(f'0041,PVALID or {bad},x')                           # malformed second name of a pair
     for p in NAMES:
         lines.append(f'0041,{p},x')
         for q in NAMES:
